@@ -44,6 +44,12 @@ func Shape(shape, ig, tbl string, srcs ...world.SrcRef) *world.Decl {
 			{Name: "n", Type: "uint256", Indexed: true, Column: "n"},
 		}
 		d.Fields = []world.Field{{Name: "block_time", Column: "block_time"}}
+	case "L4": // dynamic values: a string scalar next to an array of byte strings, both sometimes empty (decoder row reuse)
+		d.Event = "Posted"
+		d.Inputs = []world.Input{
+			{Name: "title", Type: "string", Column: "title"},
+			{Name: "blobs", Type: "bytes[]", Column: "blob"},
+		}
 	case "T1": // transaction indexing with a filter; plan blocks
 		d.Fields = []world.Field{{Name: "tx_hash", Column: "tx_hash"}, {Name: "tx_to", Column: "tx_to"}, {Name: "tx_value", Column: "tx_value"},
 			{Name: "tx_input", Column: "tx_input"}, {Name: "tx_nonce", Column: "tx_nonce", Op: "gt", Arg: []string{"1"}}, {Name: "block_hash", Column: "block_hash"}}
@@ -59,7 +65,7 @@ func Shape(shape, ig, tbl string, srcs ...world.SrcRef) *world.Decl {
 	return d
 }
 
-var Shapes = []string{"L1", "L2", "L3", "T1", "R1", "TR1"}
+var Shapes = []string{"L1", "L2", "L3", "L4", "T1", "R1", "TR1"}
 
 // decoys: declarations whose logs must NOT produce rows for the shapes above
 var (
@@ -96,7 +102,13 @@ func scalarVal(typ, seed string) []byte {
 		x := new(big.Int).SetBytes(simeth.Word(seed)[:12])
 		return world.WordBig(x)
 	case typ == "string", typ == "bytes":
-		return simeth.Word(seed)[:7]
+		// every third value is empty: a decoder that reuses rows must not leak the previous log's value
+		w := simeth.Word(seed)
+		v := w[:int(w[31]%3)*int(1+w[30]%9)]
+		if typ == "string" {
+			return []byte(fmt.Sprintf("%x", v)) // valid UTF-8
+		}
+		return v
 	}
 	return simeth.Word(seed)
 }
